@@ -1038,8 +1038,9 @@ func (interp *Interpreter) cfg(root *node, sc *scope, importPath, pkgName string
 				// Allocate a new location in frame, and store the result here.
 				n.findex = sc.add(n.typ)
 			}
-			if n.typ != nil && !n.typ.untyped && !isBoolAction(n) {
-				// The boolean result type of a comparison is unrelated to the type of its operands.
+			if n.typ != nil && !n.typ.untyped && !isInterface(n.typ) && !isBoolAction(n) {
+				// The boolean result type of a comparison is unrelated to the type of its operands,
+				// and so is the interface type of the destination of a shift.
 				fixUntyped(n, sc)
 			}
 
